@@ -74,7 +74,7 @@ Definition hnow (P : tparams) (sd : side) (th : Z) (n : tnet) (now : Z) : Prop :
 
 (* y has accepted no datagram number that x has not used yet (first lap of the sequence ring) *)
 Definition pkt_behind (x y : conn) : Prop :=
-  bf_nbits (c_bf_pkt y) = 32 /\ 0 <= bf_bits (c_bf_pkt y) < 2 ^ 32 /\ 0 <= c_seq_send x
+  bf_nbits (c_bf_pkt y) = 32 /\ 0 <= bf_bits (c_bf_pkt y) < 2 ^ 32 /\ 0 <= c_seq_send x < HALF
   /\ ((bf_cur (c_bf_pkt y) = 0 /\ bf_bits (c_bf_pkt y) = 0) \/ 1 <= bf_cur (c_bf_pkt y) <= c_seq_send x).
 
 (* y has flagged no message number that x has not used yet (first half lap of the message ring) *)
@@ -83,9 +83,10 @@ Definition msg_behind (x y : conn) : Prop :=
 
 (* sender x, receiver y: both CONNECTED under key k with nothing queued, nothing waiting for a retry
    and no RetrySender pending (TimedNet.idle_ep: the message is the only traffic of the pair), no
-   retry bookkeeping left over at the sender, the receiver's windows behind the sender's counters *)
+   retry bookkeeping left over at the sender, the id of the RetrySender about to be created is not
+   among the completed ones, the receiver's windows behind the sender's counters *)
 Definition live_start (k t0 : Z) (x y : conn) : Prop :=
-  idle_ep k x /\ idle_ep k y /\ c_pretry x = [] /\ 0 <= c_next_rid x
+  idle_ep k x /\ idle_ep k y /\ c_pretry x = [] /\ 0 <= c_next_rid x /\ zmem (c_next_rid x) (c_done x) = false
   /\ pkt_behind x y /\ msg_behind x y /\ c_last_send x <= t0 /\ 0 <= kmax x.
 
 Definition lenv_ok (e : env) : Prop := e_max_payload e < 2 ^ 16.
@@ -143,7 +144,7 @@ Definition hnowb (P : tparams) (sd : side) (th : Z) (n : tnet) (now : Z) : bool 
 
 Definition pkt_behindb (x y : conn) : bool :=
   (bf_nbits (c_bf_pkt y) =? 32) && (0 <=? bf_bits (c_bf_pkt y)) && (bf_bits (c_bf_pkt y) <? 2 ^ 32)
-  && (0 <=? c_seq_send x)
+  && (0 <=? c_seq_send x) && (c_seq_send x <? HALF)
   && (((bf_cur (c_bf_pkt y) =? 0) && (bf_bits (c_bf_pkt y) =? 0))
       || ((1 <=? bf_cur (c_bf_pkt y)) && (bf_cur (c_bf_pkt y) <=? c_seq_send x))).
 
@@ -153,4 +154,5 @@ Definition msg_behindb (x y : conn) : bool :=
 
 Definition live_startb (k t0 : Z) (x y : conn) : bool :=
   idle_epb k x && idle_epb k y && is_nil (c_pretry x) && (0 <=? c_next_rid x)
+  && negb (zmem (c_next_rid x) (c_done x))
   && pkt_behindb x y && msg_behindb x y && (c_last_send x <=? t0) && (0 <=? kmax x).
